@@ -115,6 +115,8 @@ class Evaluator:
                 raise NotPure('assignment to something other than an object field: ' + ir.pp(e))
             if e['k'] == 'cast' and ir.is_expr(e.get('e')) and ir.strip(e['e'])['k'] == 'c':
                 return
+            if e['k'] in ('var', 'mem') or (e['k'] == 'cast' and ir.is_expr(e.get('e')) and ir.strip(e['e'])['k'] in ('var', 'mem')):
+                return     # (void) x;  -- a discarded read
             if e['k'] == 'call' and e.get('op') == '=' and ir.is_expr(e.get('obj')) and len(e.get('args', [])) == 1 and \
                     (e.get('fn') is None or self.F.fn(e['fn']) is None or self.F.fn(e['fn']).d.get('implicit')):
                 # implicit (member-wise) copy / move assignment of a value object
@@ -302,6 +304,8 @@ class Evaluator:
             if e is not None and e['k'] == 'c':
                 continue
             if e is not None and e['k'] == 'cast' and ir.is_expr(e.get('e')) and ir.strip(e['e'])['k'] == 'c':
+                continue
+            if e is not None and (e['k'] in ('var', 'mem') or (e['k'] == 'cast' and ir.is_expr(e.get('e')) and ir.strip(e['e'])['k'] in ('var', 'mem'))):
                 continue
             if e is not None and e['k'] == 'new' and len(e.get('place') or []) == 1:
                 tgt = ir.strip(e['place'][0])
